@@ -217,14 +217,16 @@ package cache
 //@ monitor ttlMemCache.RWMutex
 //@   havoc mapsof(self.eleHash), list.List.lmem, list.List.lcnt, list.Element.lrk, list.Element.Value, ttlNode.key, ttlNode.value, ttlNode.deadline
 //@   invariant #tri tri(self)
-//@   assume clockNow < 4611686018427387904 && self.ttl < 4611686018427387904 && optTTL < 4611686018427387904
+//@   assume clockNow < 4611686018427387904 && clockNow > -4611686018427387904 && self.ttl < 4611686018427387904 && optTTL < 4611686018427387904
 //
 //@ func deadline
-//@   requires ttl < 4611686018427387904 && clockNow < 4611686018427387904
+//@   property C05
+//@   requires ttl < 4611686018427387904 && clockNow < 4611686018427387904 && clockNow > -4611686018427387904
 //@   ensures result == dl(ttl)
 //@   modifies
 //
 //@ func ttlMemCache.remove
+//@   property C05
 //@   requires wheld(t.RWMutex) && t.eleList != nil && lwf(t.eleList) && t.eleHash != nil && node != nil
 //@   ensures #list ele != nil ==> (old(t.eleList.lmem[ele]) ==> t.eleList.lmem == store(old(t.eleList.lmem), ele, false) && t.eleList.lcnt == old(t.eleList.lcnt) - 1) && (!old(t.eleList.lmem[ele]) ==> t.eleList.lmem == old(t.eleList.lmem) && t.eleList.lcnt == old(t.eleList.lcnt))
 //@   ensures #hash ele != nil ==> !has(t.eleHash, node.key) && forall k string :: { has(t.eleHash, k) } k != node.key ==> has(t.eleHash, k) == old(has(t.eleHash, k)) && t.eleHash[k] == old(t.eleHash[k])
@@ -232,11 +234,14 @@ package cache
 //@   modifies entries(t.eleHash), t.eleList.lmem, t.eleList.lcnt
 //
 //@ func ttlMemCache.removeTail
+//@   property C05
+//@   trusted inlined at its only call site (set)
 //@   inline
 //
 //@ func ttlMemCache.set
 //@   property C05
-//@   requires wheld(t.RWMutex) && tri(t) && terrs() && clockNow < 4611686018427387904 && t.ttl < 4611686018427387904 && optTTL < 4611686018427387904
+//@   inline
+//@   requires wheld(t.RWMutex) && tri(t) && terrs() && clockNow < 4611686018427387904 && clockNow > -4611686018427387904 && t.ttl < 4611686018427387904 && optTTL < 4611686018427387904
 //@   ensures #tri tri(t)
 //@   ensures #exists old(live(t, key)) && o.mustNotExist ==> result == ErrTTLKeyExists
 //@   ensures #absentok !old(live(t, key)) ==> result == nil
@@ -252,7 +257,8 @@ package cache
 //
 //@ func ttlMemCache.get
 //@   property C05
-//@   requires wheld(t.RWMutex) && tri(t) && terrs() && clockNow < 4611686018427387904 && t.ttl < 4611686018427387904
+//@   inline
+//@   requires wheld(t.RWMutex) && tri(t) && terrs() && clockNow < 4611686018427387904 && clockNow > -4611686018427387904 && t.ttl < 4611686018427387904
 //@   ensures #tri tri(t)
 //@   ensures #hit result1 == nil <==> old(live(t, key))
 //@   ensures #value result1 == nil ==> result0 == old(node(t.eleHash[key]).value)
@@ -264,3 +270,34 @@ package cache
 //@   modifies entries(t.eleHash), t.eleList.lmem, t.eleList.lcnt, list.Element.lrk, ttlNode.deadline, setOption.ttl, setOption.mustNotExist, setOption.keepTTL, getOption.ttl, getOption.removeAfterGet, getOption.updateTTL, region($alloc)
 //@   loop 1
 //@     invariant o != nil && isfresh(o) && wheld(t.RWMutex) && tri(t) && (forall k string :: { has(t.eleHash, k) } has(t.eleHash, k) == old(has(t.eleHash, k)) && t.eleHash[k] == old(t.eleHash[k])) && t.eleList.lmem == old(t.eleList.lmem) && t.eleList.lcnt == old(t.eleList.lcnt) && (forall e *list.Element :: { e.lrk } e.lrk == old(e.lrk)) && (forall n *ttlNode :: { n.deadline } n.deadline == old(n.deadline)) && o.ttl < 4611686018427387904
+//
+//@ func ttlMemCache.Set
+//@   property C05
+//@   requires !held(t.RWMutex) && terrs()
+//@   ensures #existsonlyiflive result != nil ==> result == ErrTTLKeyExists && cs(live(t, key))
+//@   ensures #absentok !cs(live(t, key)) ==> result == nil
+//@   ensures #stored result == nil && t.size > 0 ==> has(t.eleHash, key) && node(t.eleHash[key]).value == value
+//@   modifies ttlMemCache.eleList, ttlMemCache.eleHash, mapsof(t.eleHash), list.List.lmem, list.List.lcnt, list.Element.lrk, list.Element.Value, ttlNode.key, ttlNode.value, ttlNode.deadline, setOption.ttl, setOption.mustNotExist, setOption.keepTTL, getOption.ttl, getOption.removeAfterGet, getOption.updateTTL, region($alloc)
+//
+//@ func ttlMemCache.Get
+//@   property C05
+//@   requires !held(t.RWMutex) && terrs()
+//@   ensures #hit result1 == nil <==> cs(live(t, key))
+//@   ensures #value result1 == nil ==> result0 == cs(node(t.eleHash[key]).value)
+//@   ensures #miss result1 != nil ==> result1 == ErrTTLKeyNotFound
+//@   ensures #expiredremoved cs(has(t.eleHash, key)) && !cs(live(t, key)) ==> !has(t.eleHash, key)
+//@   ensures #others forall k string :: { has(t.eleHash, k) } k != key ==> has(t.eleHash, k) == cs(has(t.eleHash, k)) && t.eleHash[k] == cs(t.eleHash[k])
+//@   modifies ttlMemCache.eleList, ttlMemCache.eleHash, mapsof(t.eleHash), list.List.lmem, list.List.lcnt, list.Element.lrk, list.Element.Value, ttlNode.key, ttlNode.value, ttlNode.deadline, setOption.ttl, setOption.mustNotExist, setOption.keepTTL, getOption.ttl, getOption.removeAfterGet, getOption.updateTTL, region($alloc)
+//
+//@ func ttlMemCache.Remove
+//@   property C05
+//@   requires !held(t.RWMutex)
+//@   ensures #gone result == nil && !has(t.eleHash, key)
+//@   ensures #others forall k string :: { has(t.eleHash, k) } k != key ==> has(t.eleHash, k) == cs(has(t.eleHash, k)) && t.eleHash[k] == cs(t.eleHash[k])
+//@   modifies ttlMemCache.eleList, ttlMemCache.eleHash, mapsof(t.eleHash), list.List.lmem, list.List.lcnt, list.Element.lrk, list.Element.Value, ttlNode.key, ttlNode.value, ttlNode.deadline, setOption.ttl, setOption.mustNotExist, setOption.keepTTL, getOption.ttl, getOption.removeAfterGet, getOption.updateTTL, region($alloc)
+//
+//@ func ttlMemCache.Clear
+//@   property C05
+//@   requires !held(t.RWMutex)
+//@   ensures #empty t.eleList.lcnt == 0 && forall k string :: { has(t.eleHash, k) } !has(t.eleHash, k)
+//@   modifies ttlMemCache.eleList, ttlMemCache.eleHash, mapsof(t.eleHash), list.List.lmem, list.List.lcnt, list.Element.lrk, list.Element.Value, ttlNode.key, ttlNode.value, ttlNode.deadline, setOption.ttl, setOption.mustNotExist, setOption.keepTTL, getOption.ttl, getOption.removeAfterGet, getOption.updateTTL, region($alloc)
